@@ -15,7 +15,7 @@ from . import mc, tlc
 from .c13 import execute, judge
 from .common import MachineryFailure, Result, seed
 
-CLAUSES = ('C14_', 'C13_rows', 'C13_row_not_dropped')
+CLAUSES = ('C14_', 'C13_rows', 'C13_row_not_dropped', 'C13_iterations_all_started')  # a failing iteration must not stop others from running
 
 
 def plan(tier: str):
@@ -25,7 +25,10 @@ def plan(tier: str):
             ('geophires', mc.GEO_BASE, [('Utilization Factor', 'uniform', 0.6, 1.3, None), ('Gradient 1', 'normal', 60.0, 3.0, None)],
              mc.GEO_OUTPUTS, 24, 8),                                                     # ~40 % failing iterations
             ('geophires', mc.GEO_BASE, mc.GEO_INPUTS[:2], list(reversed(mc.GEO_OUTPUTS)), 10, 2),
-            ('hip_ra_x', mc.HIP_BASE, [('Reservoir Porosity', 'uniform', 5.0, 120.0, None)] + mc.HIP_INPUTS[:1], mc.HIP_OUTPUTS, 30, 4)]
+            ('hip_ra_x', mc.HIP_BASE, [('Reservoir Porosity', 'uniform', 5.0, 120.0, None)] + mc.HIP_INPUTS[:1], mc.HIP_OUTPUTS, 30, 4),
+            # many iterations per worker with failing ones in between (batching of tasks must not couple their fates)
+            ('hip_ra_x', mc.HIP_BASE, [('Reservoir Porosity', 'uniform', 5.0, 140.0, None)] + mc.HIP_INPUTS[:1], mc.HIP_OUTPUTS, 64, 2),
+            ('geophires', mc.GEO_BASE, [('Utilization Factor', 'uniform', 0.7, 1.2, None)], mc.GEO_OUTPUTS[:1], 36, 1)]
     if tier == 'thorough':
         for w in (1, 2, 4, 16):
             runs.append(('geophires', mc.GEO_BASE, mc.GEO_INPUTS, mc.GEO_OUTPUTS, rng.choice([40, 80]), w))
